@@ -82,7 +82,7 @@ def cases(draw):
             # the symmetric key is known under the identifier 'k-mac-1', or under the empty identifier
             'kid': draw(st.sampled_from(['k-mac-1', 'k-mac-1', ''])),
             # direction S only: source and receiver get their keys / trust anchor from files named in the configuration
-            'via_files': draw(st.sampled_from([False, False, True]))}
+            'via_files': draw(st.sampled_from([False, False, True])), 'keyset': draw(st.sampled_from([0, 0, 2]))}
 
 
 def strategy(tier):
@@ -105,6 +105,8 @@ def enumerate_cases(tier):
     for alg, identity in itertools.product((-7, -35), ('none', 'other')):
         yield {'direction': 'S', 'alg': alg, 'targets': ['payload'], 'scope': 0, 'addl': False, 'plen': 5, 'seed': 1, 'pcrc': 0,
                'bcrc': 0, 'sec_crc': 0, 'alterations': [], 'identity': identity}
+    yield {'direction': 'S', 'alg': -7, 'targets': ['payload'], 'scope': 0, 'addl': False, 'plen': 5, 'seed': 1, 'pcrc': 0, 'via_files': True,
+           'keyset': 2, 'bcrc': 0, 'sec_crc': 0, 'alterations': [['tgt-data', 0, 1], ['pri-time', 0, 0], ['other-data', 0, 0], ['res-tag', 0, 3]]}
     for alg in (-7, -35):
         yield {'direction': 'S', 'alg': alg, 'targets': ['payload'], 'scope': 0, 'addl': False, 'plen': 5, 'seed': 1, 'pcrc': 0, 'via_files': True,
                'bcrc': 0, 'sec_crc': 0, 'alterations': [c for c in catalogue if not c[0].startswith('other-')][::2]}
@@ -153,10 +155,14 @@ def sign(case, out):
             # the deployment way: key and certificate files named in the configuration; the agent then signs the payload
             # of everything it sources itself (Bpsec load_config), nothing is set up by hand
             import shutil
-            tmpdir, paths = bu.pem_files('dtn://srcnode/', CURVES[case['alg']], 0)
+            tmpdir, paths = bu.pem_files('dtn://srcnode/', CURVES[case['alg']], _keyset(case))
             try:
                 src = bw.Node('dtn://srcnode/', tx_routes=[('.*', 'dtn://next/', None)], name='source',
                               config_extra={'sign_key_file': paths['key'], 'sign_cert_file': paths['cert']})
+            except Exception as exc:
+                out.fail('source-cannot-load-key:%s' % type(exc).__name__, 'an agent configured with a valid %s key and certificate (key set %d) '
+                         'does not start: %s: %s' % (CURVES[case['alg']], _keyset(case), type(exc).__name__, str(exc)[:100]))
+                return None
             finally:
                 shutil.rmtree(tmpdir, ignore_errors=True)
             out.label('keys-from-files')
@@ -201,13 +207,18 @@ def sign(case, out):
                           addl_protected=(b'\xa0' if case.get('addl') else b''), sec_crc=case.get('sec_crc', 0))
 
 
-def receive(bundle_or_wire, alg, key_override=None, no_key=False, kid='k-mac-1', via_files=False):
+def _keyset(case):
+    ''' Which fixture key set the source signs with: 0, or 2 (P-256 only: a public coordinate with a leading zero octet). '''
+    return 2 if case.get('keyset') == 2 and case.get('alg') == -7 else 0
+
+
+def receive(bundle_or_wire, alg, key_override=None, no_key=False, kid='k-mac-1', via_files=False, keyset=0):
     ''' Fresh real receiver.  :return: (delivered payload or None, finish records) '''
     from vlib import bp_world as bw, ref9171 as r, bpsec_util as bu
     bw.reset()
     if via_files and alg in CURVES and not no_key:
         import shutil
-        tmpdir, paths = bu.pem_files('dtn://srcnode/', CURVES[alg], 1 if key_override is not None else 0)
+        tmpdir, paths = bu.pem_files('dtn://srcnode/', CURVES[alg], 1 if key_override is not None else keyset)
         try:
             node = bw.Node('dtn://dst/', rx_routes=[('^dtn://dst/', 'deliver')], tx_routes=[('.*', 'dtn://next/', None)], name='dst',
                            config_extra={'verify_ca_file': paths['ca']})
@@ -266,7 +277,7 @@ def execute(case):
         if ok:
             out.fail('harness-impostor-verifies', 'the reference accepts a certificate that does not name the security source')
             return out
-        payload, fins, err, escapes = receive(signed, alg, kid=kid, via_files=bool(case.get('via_files')))
+        payload, fins, err, escapes = receive(signed, alg, kid=kid, via_files=bool(case.get('via_files')), keyset=_keyset(case))
         out.count('alterations_evaluated')
         out.count('alteration:signer-identity')
         if payload is not None:
@@ -283,7 +294,7 @@ def execute(case):
     if not ok:
         out.fail('unmodified-does-not-verify:reference', 'the independent verifier rejects the unmodified BIB (direction %s)' % case['direction'])
         return out
-    payload, fins, err, escapes = receive(signed, alg, kid=kid, via_files=bool(case.get('via_files')))
+    payload, fins, err, escapes = receive(signed, alg, kid=kid, via_files=bool(case.get('via_files')), keyset=_keyset(case))
     want_payload = bytes.fromhex(signed['blocks'][-1]['data'])
     if payload != want_payload:
         out.fail('unmodified-not-delivered', 'receiver with the right key did not deliver the unmodified bundle (finish %s, error %r)' % (fins, err))
@@ -310,7 +321,7 @@ def execute(case):
             mutated = bu.edit_asb(signed, 11, lambda asb: _malleate(asb, arg1 % len(target_nums), alg))
             if mutated == signed:
                 continue
-            payload, fins, err, escapes = receive(r.encode(mutated), alg, kid=kid, via_files=bool(case.get('via_files')))
+            payload, fins, err, escapes = receive(r.encode(mutated), alg, kid=kid, via_files=bool(case.get('via_files')), keyset=_keyset(case))
             out.count('alterations_evaluated')
             out.count('alteration:sig-malleate')
             if payload is not None:
@@ -373,7 +384,7 @@ def execute(case):
                     verdict = None    # BIB disappeared (bit flip in its type code): nothing to verify
             except (rc.CoseError, r.RefError, ValueError, KeyError, IndexError, TypeError):
                 verdict = False
-        payload, fins, err, escapes = receive(wire, alg, key_override, no_key, kid=kid, via_files=bool(case.get('via_files')))
+        payload, fins, err, escapes = receive(wire, alg, key_override, no_key, kid=kid, via_files=bool(case.get('via_files')), keyset=_keyset(case))
         delivered = payload is not None
         out.count('alterations_evaluated')
         out.count('alteration:%s' % kind)
